@@ -357,6 +357,7 @@ type c12State struct {
 	failed  bool              // a failure has been reported (no further stages)
 	genOK   bool
 	skipped string
+	genErr  string // an error answer to a request expected to generate: reported after upstream protoc-gen-go has been asked too
 }
 
 var importRe = regexp.MustCompile(`^package (\S+)`)
@@ -384,6 +385,27 @@ func (g *genCtx) runC12(reqs []*genReq) {
 		st.res = runPlugin(g.plugin, r.request(r.param, r.generate), nil, "")
 		g.stage1(st)
 	})
+	// a request answered with an error: held against the plugin only if upstream protoc-gen-go serves the same request
+	{
+		refused := map[*c12State]string{}
+		for _, st := range states {
+			if st.genErr != "" {
+				refused[st] = st.genErr
+			}
+		}
+		if len(refused) > 0 {
+			g.judgeWithReference(refused)
+		}
+		for _, st := range states {
+			if st.genErr == "" {
+				continue
+			}
+			if st.skipped == "reference-fails-too" {
+				continue // no further stages for it either
+			}
+			g.fail("C12", st.req, st.genErr)
+		}
+	}
 	// stage 2: parameter strings (features= permutations and unknown names, paths=, unknown flags) on every request
 	g.paramVariants(reqs, states)
 	// stage 3: identifier / index model lines from the emitted sources
@@ -396,10 +418,10 @@ func (g *genCtx) runC12(reqs []*genReq) {
 	g.compileAndSmoke(states)
 	for _, st := range states {
 		cls := "outcome/ok"
-		if st.failed {
-			cls = "outcome/failed"
-		} else if st.skipped != "" {
+		if st.skipped != "" {
 			cls = "outcome/" + st.skipped
+		} else if st.failed {
+			cls = "outcome/failed"
 		}
 		o.count(cls)
 	}
@@ -425,7 +447,7 @@ func (g *genCtx) stage1(st *c12State) {
 			return
 		}
 		st.failed = true
-		g.fail("C12", r, "plugin answered a valid request with an error: "+firstLines(resp.GetError(), 3))
+		st.genErr = "plugin answered a valid request with an error: " + firstLines(resp.GetError(), 3)
 		return
 	}
 	want := r.proto3Requested(r.generate)
@@ -993,6 +1015,7 @@ func (g *genCtx) identLines(st *c12State) {
 		if !ok {
 			continue
 		}
+		srcLines := strings.Split(src, "\n")
 		// what the source declares
 		mdOf := map[string]string{} // message path "A.B" -> md ident
 		mdPath := map[string]string{}
@@ -1105,11 +1128,20 @@ func (g *genCtx) identLines(st *c12State) {
 				o.count("ident/message")
 				if spec, ok := sizeSpec(m); ok {
 					o.kase("GENSIZEBR", []string{sx(spec)}, orMissing(sizeOpens(src, gn)))
+					for _, t := range brTemplates {
+						o.kase("GENBR", []string{t, sx(spec)}, orMissing(methodOpens(srcLines, t, gn)))
+					}
 				}
 				walk(m.Messages, p)
 			}
 		}
 		walk(file.Messages, nil)
+		// goTypes / depIdxs tables handed to protoimpl.TypeBuilder vs the model's prediction from the descriptor
+		if strings.Contains(src, "protoimpl.TypeBuilder") || strings.Contains(src, ".TypeBuilder{") {
+			o.kase("GENDEPIDX", []string{depSpec(file)}, orMissing(depTables(src)))
+			o.count("ident/deptable")
+			o.nontrivial(fmt.Sprintf("dep/%d/%d/%d", len(file.Messages), len(file.Services), len(file.Extensions)))
+		}
 	}
 }
 
@@ -1191,6 +1223,173 @@ func sizeOpens(src, goName string) string {
 		if strings.HasSuffix(strings.TrimRight(l, " \t"), "{") {
 			n++
 		}
+	}
+	return ""
+}
+
+// depSpec renders what genReflectFileDescriptor sees of a file: (F (E enum...) (X (x extendee type|-)...) (MS msg...) (SV (S (m in out)...)...))
+// with msg = (M full (E enum...) (X ext...) (R ref|-...) (N msg...)); all names are full names
+func depSpec(file *protogen.File) string {
+	var sb strings.Builder
+	enums := func(es []*protogen.Enum) {
+		sb.WriteString("(E")
+		for _, e := range es {
+			sb.WriteString(" " + string(e.Desc.FullName()))
+		}
+		sb.WriteString(")")
+	}
+	exts := func(xs []*protogen.Extension) {
+		sb.WriteString("(X")
+		for _, x := range xs {
+			t := "-"
+			if x.Enum != nil {
+				t = string(x.Enum.Desc.FullName())
+			} else if x.Message != nil {
+				t = string(x.Message.Desc.FullName())
+			}
+			sb.WriteString(" (x " + string(x.Extendee.Desc.FullName()) + " " + t + ")")
+		}
+		sb.WriteString(")")
+	}
+	var msgs func(ms []*protogen.Message)
+	msgs = func(ms []*protogen.Message) {
+		for _, m := range ms {
+			sb.WriteString("(M " + string(m.Desc.FullName()) + " ")
+			enums(m.Enums)
+			exts(m.Extensions)
+			sb.WriteString("(R")
+			for _, f := range m.Fields {
+				switch {
+				case f.Enum != nil:
+					sb.WriteString(" " + string(f.Enum.Desc.FullName()))
+				case f.Message != nil:
+					sb.WriteString(" " + string(f.Message.Desc.FullName()))
+				default:
+					sb.WriteString(" -")
+				}
+			}
+			sb.WriteString(")(N")
+			msgs(m.Messages)
+			sb.WriteString("))")
+		}
+	}
+	sb.WriteString("(F ")
+	enums(file.Enums)
+	exts(file.Extensions)
+	sb.WriteString("(MS")
+	msgs(file.Messages)
+	sb.WriteString(")(SV")
+	for _, sv := range file.Services {
+		sb.WriteString("(S")
+		for _, me := range sv.Methods {
+			sb.WriteString(" (m " + string(me.Input.Desc.FullName()) + " " + string(me.Output.Desc.FullName()) + ")")
+		}
+		sb.WriteString(")")
+	}
+	sb.WriteString("))")
+	return sb.String()
+}
+
+var (
+	reGoTypesStart = regexp.MustCompile(`^var file_\S+_goTypes = \[\]interface\{\}\{(\})?$`)
+	reDepIdxsStart = regexp.MustCompile(`^var file_\S+_depIdxs = \[\]int32\{(\})?$`)
+	reGoTypeLine   = regexp.MustCompile(`// (\d+): (\S+)$`)
+	reDepLine      = regexp.MustCompile(`^\t(-?\d+),`)
+)
+
+// depTables parses the emitted goTypes (full names from the line comments, in order, indexes checked) and depIdxs tables
+func depTables(src string) string {
+	var names, idxs []string
+	mode := ""
+	seenG, seenD := false, false
+	for _, l := range strings.Split(src, "\n") {
+		switch {
+		case mode == "" && reGoTypesStart.MatchString(l):
+			seenG = true
+			if !strings.HasSuffix(l, "{}") {
+				mode = "g"
+			}
+		case mode == "" && reDepIdxsStart.MatchString(l):
+			seenD = true
+			if !strings.HasSuffix(l, "{}") {
+				mode = "d"
+			}
+		case mode != "" && l == "}":
+			mode = ""
+		case mode == "g":
+			m := reGoTypeLine.FindStringSubmatch(l)
+			if m == nil || m[1] != fmt.Sprint(len(names)) {
+				return "unparsable-goTypes-line:" + strings.TrimSpace(l)
+			}
+			names = append(names, m[2])
+		case mode == "d":
+			m := reDepLine.FindStringSubmatch(l)
+			if m == nil {
+				return "unparsable-depIdxs-line:" + strings.TrimSpace(l)
+			}
+			idxs = append(idxs, m[1])
+		}
+	}
+	if !seenG || !seenD {
+		return ""
+	}
+	return strings.Join(names, ",") + "|" + strings.Join(idxs, ",")
+}
+
+// templates whose brace skeleton is modelled in Model/GenTemplates2.v
+var brTemplates = []string{"has", "clear", "get", "set", "mutable", "newfield", "range", "whichoneof", "marshal", "unmarshal"}
+
+var brMethodName = map[string]string{"has": "Has", "clear": "Clear", "get": "Get", "set": "Set", "mutable": "Mutable", "newfield": "NewField", "range": "Range", "whichoneof": "WhichOneof"}
+var reMethodsRet = regexp.MustCompile(`^\treturn &\S+\.Methods\{$`)
+
+// methodOpens counts the lines ending in '{' of one generated method of fastReflection_<goName> (for marshal / unmarshal:
+// of the closure inside ProtoMethods)
+func methodOpens(lines []string, tmpl, goName string) string {
+	count := func(from, to int) string {
+		n := 0
+		for _, l := range lines[from:to] {
+			if strings.HasSuffix(strings.TrimRight(l, " \t"), "{") {
+				n++
+			}
+		}
+		return fmt.Sprint(n)
+	}
+	if name, ok := brMethodName[tmpl]; ok {
+		hdr := "func (x *fastReflection_" + goName + ") " + name + "("
+		for i, l := range lines {
+			if strings.HasPrefix(l, hdr) {
+				for j := i + 1; j < len(lines); j++ {
+					if lines[j] == "}" {
+						return count(i, j)
+					}
+				}
+			}
+		}
+		return ""
+	}
+	hdr := "func (x *fastReflection_" + goName + ") ProtoMethods() "
+	for i, l := range lines {
+		if !strings.HasPrefix(l, hdr) {
+			continue
+		}
+		m, u, e := -1, -1, -1
+		for j := i + 1; j < len(lines) && lines[j] != "}"; j++ {
+			switch {
+			case strings.HasPrefix(lines[j], "\tmarshal := func("):
+				m = j
+			case strings.HasPrefix(lines[j], "\tunmarshal := func("):
+				u = j
+			case reMethodsRet.MatchString(lines[j]):
+				e = j
+			}
+		}
+		if m < 0 || u < 0 || e < 0 {
+			return ""
+		}
+		if tmpl == "marshal" {
+			return count(m, u)
+		}
+		return count(u, e)
 	}
 	return ""
 }
